@@ -94,6 +94,7 @@ PROPS = {
         verus=[U("c10_solver_tables", ["C10.V.solver_tables.full_enumerates (the multi-threaded unsampled solver is built over the same enumerating chance entries as the single-threaded one)"]),
                U("c06_generic_multi_fresh", ["C06.V.solve_generic_multi.workspace_fresh"]),
                U("c06_threshold_player_step", ["C06.V.thread_threshold.frontier_reach", "C06.V.thread_threshold.frontier_reach_chance"]),
+               U("c06_threshold_loop", ["C06.V.thread_threshold.frontier_is_a_cut (the whole expansion loop: queue+work+passed terminals conserve every additive functional of the sequential traversal -- no subtree twice, none lost)"]),
                U("c06_recurse_multi_cache", ["C06.V.recurse_multi.cache_hit", "C06.V.recurse_multi.miss_traverses", "C06.V.cached_payoff.unit_is_empty"]),
                U("c08_recurse_single_player_arm", ["C08.V.recurse_single.player_arm (one visit of a decision node: the single-threaded statement)"]),
                U("c08_recurse_multi_player_arm", ["C08.V.recurse_multi.player_arm (the same visit as a sequence of atomic events)"]),
@@ -105,7 +106,7 @@ PROPS = {
         
         trusted_base=["assumed contracts on thread_threshold and rayon (prelude/workspace.rs)"],
         not_decided=["races between worker tasks, atomic add ordering, equality up to summation order",
-                     "thread_threshold's loop as a whole (queue/work swap discipline, termination at the target size): only its per-node steps are under contract"],
+                     "thread_threshold: termination and that the loop stops AT the target size (performance only); that the frontier it leaves is a cut of the traversal IS decided (C06.V.thread_threshold.frontier_is_a_cut)"],
     ),
     "C07": dict(
         level="proof",
@@ -117,6 +118,7 @@ PROPS = {
         level_note="Schedules and the uniqueness of the visit behind try_lock().unwrap() are NOT decided.",
         verus=[U("c08_update_cum_strat", ["C08.V.update_cum_strat.external (the sampled player's average strategy is updated at every visit, also when its action was drawn while the frontier was built)"]),
                U("c06_threshold_player_step", ["C06.V.thread_threshold.frontier_reach", "C06.V.thread_threshold.frontier_reach_chance"]),
+               U("c06_threshold_loop", ["C06.V.thread_threshold.frontier_is_a_cut (chance-sampled parallel path: the frontier is a cut of the SAMPLED tree)"]),
                U("c07_external_fresh", ["C07.V.single_player_iter.workspace_fresh", "C07.V.solve_external_multi.workspace_fresh"]),
                U("c06_generic_multi_fresh", ["C06.V.solve_generic_multi.workspace_fresh"]),
                U("c05_into_avg_strat", ["C05.V.into_avg_strat.normalised (the multi-threaded extraction uses the same normalisation)"]),
@@ -125,6 +127,7 @@ PROPS = {
                U("c10_sampled_chance", ["C10.V.sampled_chance.cache_hit", "C10.V.sampled_chance.reset"]),
                U("c10_external_next", ["C10.V.external.chance_next (the draw made at the first visit is the one every later visit of the pass follows)", "C10.V.external.next_update"]),
                U("c07_external_next_nodes", ["C07.V.next_nodes.sampled_walk (the frontier walk follows exactly the sampled outcome / sampled action down to the pass's own player)", "C07.V.next_nodes.draws_kept (at most one sample per infoset per pass)"]),
+               U("c07_external_threshold_loop", ["C07.V.external_thread_threshold.frontier_is_a_cut (the whole frontier loop of the external-sampled parallel path: queue+work+reached terminals are a cut of the SAMPLED tree -- visited exactly once)", "C07.V.external_thread_threshold.draws_kept"]),
                U("c10_cached_infoset", ["C10.V.cached_infoset.cache_hit"]),
                U("c08_advance_order", ["C10.V.cached_infoset.advance_resets_draw"])],
         trusted_base=["assumed contracts on thread_threshold and rayon (prelude/workspace.rs)"],
@@ -204,11 +207,12 @@ PROPS = {
             U("c10_external_next", ["C10.V.external.chance_next", "C10.V.external.chance_advance_rearms", "C10.V.external.player_next", "C10.V.external.next_update"]),
             U("c10_solver_tables", ["C10.V.solver_tables.full_enumerates (the unsampled method's chance entries never draw)", "C10.V.solver_tables.sampled_samples_declared_weights", "C10.V.solver_tables.player_entry_sized"]),
             U("c07_external_next_nodes", ["C07.V.next_nodes.sampled_walk", "C07.V.next_nodes.draws_kept"]),
+            U("c07_external_threshold_loop", ["C07.V.external_thread_threshold.frontier_is_a_cut", "C07.V.external_thread_threshold.draws_kept (building the frontier never re-draws an infoset)"]),
             U("c08_recurse_regret_dispatch", ["C08.V.recurse_regret.active_enumerates (the pass's own player is enumerated)", "C08.V.recurse_regret.external_sampled (the other player's sampled action is followed)", "C08.V.recurse_regret.chance_sampled"]),
         ],
         kani_functions=["src/solve/multinomial.rs :: impl Distribution<usize> for Multinomial / fn sample"],
         trusted_base=[FLOAT_IDEAL, "rand::Rng::gen, rand_distr::WeightedAliasIndex (assumed contracts)"],
-        not_decided=["statistical correctness of the alias sampler", "external::thread_threshold's work-list loop around next_nodes (that the frontier is a cut of the sampled tree, each node once)"],
+        not_decided=["statistical correctness of the alias sampler", "termination of external::thread_threshold's work-list loop (that the frontier it leaves is a cut of the sampled tree IS decided: C07.V.external_thread_threshold.frontier_is_a_cut)"],
     ),
     "C11": dict(
         level="proof",
